@@ -73,10 +73,19 @@ def r1_search(m):
         kw = {k.arg: A.text(k.value) for k in ctor[0].keywords}
         ok = kw.get("include_dirs") in ("include_dirs", "self.include_dirs", "self.include_dirs[:]") and kw.get("ignore_comments") == "ignore_comments" \
             and cand and A.text(ctor[0].args[0]) == cand
+        # every option the file reader shares with the base reader travels to the nested reader
+        fk, bk = m.key("FortranFileReader", RF), m.key("FortranReaderBase", RF)
+        fparams = A.param_names(m.method(fk, "__init__").node)[1:]
+        bparams = A.param_names(m.method(bk, "__init__").node)[1:]
+        missing_opts = [p_ for p_ in fparams if p_ in bparams and (p_ not in kw or p_.strip("_") not in kw[p_])]
+        if missing_opts:
+            ok = False
     r.ob(ok, "next: nested FortranFileReader(%s, include_dirs=..., ignore_comments=...)" % cand)
     if not ok:
         r.fail("next|nested-options", "the reader created for an included file does not receive the resolved path, the include "
-               "directories and the comment setting of the including reader", m.loc(nx, ctor[0]) if ctor else m.loc(nx))
+               "directories and every reader option of the including reader (comment setting, OpenMP conditional lines, directive "
+               "processing): lines of the included file are then classified differently from the same lines written in place",
+               m.loc(nx, ctor[0]) if ctor else m.loc(nx))
     # the include reader is consulted first and dropped when exhausted
     r.instances += 1
     deleg = any(isinstance(n, ast.If) and A.text(n.test) in ("self.reader is not None", "self.reader") and
